@@ -228,7 +228,7 @@ def parse_rvalue(s):
                 pass
         return Rv("use", parse_operand(s))
     if s.startswith("&"):
-        m = re.match(r"&(raw (?:const|mut) |mut |fake shallow |fake |)(.*)$", s, re.S)
+        m = re.match(r"&(raw (?:const|mut) \(fake\) |raw (?:const|mut) |mut |fake shallow |fake |)(.*)$", s, re.S)
         return Rv("ref", m.group(1).strip(), parse_place(m.group(2)))
     m = re.match(r"([A-Za-z]+)\((.*)\)$", s, re.S)
     if m and m.group(1) in BINOPS:
